@@ -1,6 +1,7 @@
 INIT Init
 NEXT Next
 CONSTANTS
+ SkipMatched = TRUE
  Recheck = TRUE
  Emit = TRUE
 CHECK_DEADLOCK FALSE
